@@ -23,12 +23,14 @@ def mk(i, data, hdr):
 def run(ctx):
     rng = ctx.rng
     cases = []
-    hdr_lens = [1, 2, 35, 255, 256] + ([] if ctx.quick else [65536, 70000])
+    hdr_lens = [1, 2, 35, 255, 256, 65536] + ([] if ctx.quick else [65535, 70000, 131072 + 35])
     datas = [b"", b"x", E.canon({"a": 1}), rng.randbytes(300), b"\x04\xff\x00\x00\x00\x01", rng.randbytes(65)]
     nbits = 10 if ctx.quick else 64
     for hl in hdr_lens:
         hdr = rng.randbytes(hl)
-        for data in datas:
+        big = hl > 1000
+        nbits = 1 if big else (10 if ctx.quick else 64)
+        for data in (datas[2:4] if big else datas):
             k = PUBHEX[0]
             g = mk(0, data, hdr)
             add = lambda v, key, d, tag: cases.append({"w": wire.case("verify_gpg_signature", v, key, d), "meta": {"tag": tag}})
@@ -51,6 +53,12 @@ def run(ctx):
                 add(dict(g, other_headers=hdr[1:].hex()), k, data + hdr[:1], "boundary->data")
             if data:
                 add(dict(g, other_headers=(data[-1:] + hdr).hex()), k, data[:-1], "boundary->hdr")
+            if big:
+                # a long payload whose tail is moved into the headers: lengths that agree modulo 2^16 must still differ
+                long_data = rng.randbytes(65536 + 40)
+                g2 = mk(0, long_data, hdr[:35])
+                add(g2, k, long_data, "valid-long-payload")
+                add(dict(g2, other_headers=(long_data[-65536:] + hdr[:35]).hex()), k, long_data[:-65536], "boundary-64KiB")
             add(dict(g, other_headers=(hdr + b"\x04\xff").hex()), k, data, "hdr+trailer")
             add(dict(g, other_headers=""), k, data + hdr, "empty-hdr")
             add(dict(g, other_headers=hdr.hex().upper()), k, data, "hdr-upper")
